@@ -187,8 +187,24 @@ func writeIsTriviallySerializableSpecializations(w *formatting.IndentedWriter, e
 	w.WriteStringln("#pragma GCC diagnostic ignored \"-Winvalid-offsetof\"")
 	w.WriteStringln("#endif\n")
 
+	// Previous versions of a changed definition share its C++ type but not its encoding, so
+	// containers of them must not take the bulk-copy path that this trait enables.
+	changedInPreviousVersion := make(map[string]bool)
+	for _, ns := range env.Namespaces {
+		for _, versionLabel := range ns.Versions {
+			for _, change := range ns.DefinitionChanges[versionLabel] {
+				if change != nil && change.LatestDefinition() != nil {
+					changedInPreviousVersion[change.LatestDefinition().GetDefinitionMeta().GetQualifiedName()] = true
+				}
+			}
+		}
+	}
+
 	for _, ns := range env.Namespaces {
 		for _, td := range ns.TypeDefinitions {
+			if changedInPreviousVersion[td.GetDefinitionMeta().GetQualifiedName()] {
+				continue
+			}
 			writeIsTriviallySerializableSpecialization(w, td)
 		}
 	}
